@@ -25,7 +25,7 @@ func VerifNewNAT(oneToOne bool, mapb, filtb int, life time.Duration, mapped, loc
 		name: "verif",
 		natType: NATType{
 			Mode:              mode,
-			MappingBehavior:   EndpointDependencyType(mapb),   //nolint:gosec
+			MappingBehavior:   EndpointDependencyType(mapb),  //nolint:gosec
 			FilteringBehavior: EndpointDependencyType(filtb), //nolint:gosec
 			MappingLifeTime:   life,
 		},
@@ -95,19 +95,26 @@ type VerifSink struct {
 	mu    sync.Mutex
 	got   []VerifGot
 	snaps map[int]string
+	// Block makes onInboundChunk take that long (a downstream NIC that blocks, e.g. a child router
+	// sleeping in its jitter while holding its mutex)
+	Block time.Duration
 }
 
 func (s *VerifSink) getInterface(string) (*transport.Interface, error) { return nil, nil } //nolint:nilnil
-func (s *VerifSink) getStaticIPs() []net.IP                           { return nil }
-func (s *VerifSink) setRouter(*Router) error                          { return nil }
+func (s *VerifSink) getStaticIPs() []net.IP                            { return nil }
+func (s *VerifSink) setRouter(*Router) error                           { return nil }
 func (s *VerifSink) onInboundChunk(c Chunk) {
 	s.mu.Lock()
-	defer s.mu.Unlock()
 	id := -1
 	if d := c.UserData(); len(d) >= 4 {
 		id = int(d[0])<<24 | int(d[1])<<16 | int(d[2])<<8 | int(d[3])
 	}
 	s.got = append(s.got, VerifGot{ID: id, At: time.Now(), Intact: s.snaps[id] == verifSnap(c)})
+	block := s.Block
+	s.mu.Unlock()
+	if block > 0 {
+		time.Sleep(block) // not under the mutex: a goroutine waiting for a mutex is not "durably blocked" for synctest
+	}
 }
 
 // Len is the number of chunks received and not yet taken.
@@ -217,7 +224,7 @@ type verifSinkNIC struct {
 }
 
 func (s *verifSinkNIC) getInterface(string) (*transport.Interface, error) { return s.ifc, nil }
-func (s *verifSinkNIC) getStaticIPs() []net.IP                           { return []net.IP{s.ip} }
+func (s *verifSinkNIC) getStaticIPs() []net.IP                            { return []net.IP{s.ip} }
 
 // VerifNewDelayRouter builds and starts a router (1.2.3.0/24) with a sink NIC at 1.2.3.4.
 func VerifNewDelayRouter(minDelay, maxJitter time.Duration, queueSize int) (*VerifDelayRouter, error) {
@@ -274,8 +281,8 @@ func VerifNewDelay(delay time.Duration) (*VerifFilter, error) {
 
 type verifNoObserver struct{}
 
-func (verifNoObserver) write(Chunk) error                          { return nil }
-func (verifNoObserver) onClosed(net.Addr)                          {}
+func (verifNoObserver) write(Chunk) error                            { return nil }
+func (verifNoObserver) onClosed(net.Addr)                            {}
 func (verifNoObserver) determineSourceIP(locIP, dstIP net.IP) net.IP { return locIP }
 
 // VerifNewUDPConn returns a vnet UDP socket that is not attached to any Net.
